@@ -2,7 +2,7 @@
     Vocabulary: Diff/Model.v (the transcription of diff/*.go and function.go:diffEnv) and Diff/Spec.v. *)
 From Dawn Require Import Diff.Model Diff.Spec Diff.Proofs_Basic Diff.Proofs_Record Diff.Proofs_Search
      Diff.Proofs_Seq Diff.Proofs_Rounds Diff.Proofs_Value Diff.Proofs_Reason
-     Diff.SpecCost Diff.SpecGraph Diff.Proofs_Total Diff.Proofs_Min Diff.Proofs_Opt Diff.Proofs_Short.
+     Diff.SpecCost Diff.SpecGraph Diff.Proofs_Total Diff.Proofs_Min Diff.Proofs_Opt Diff.Proofs_Short Diff.Sched Diff.Proofs_Sched.
 Open Scope Z_scope.
 
 (** The diff of two values is empty exactly when they are equal (EqualDepth at the same depth says true). *)
@@ -247,6 +247,39 @@ Theorem script_is_shortest : forall (A : Type) (eqv : A -> A -> option bool) rou
 Proof. exact script_is_shortest_lemma. Qed.
 Print Assumptions script_is_shortest.
 
+(** SEVERAL TARGETS AT ONCE.  The runner checks every target on a goroutine of its own, so the loop of diffEnv that
+    collects the names of the differing parts runs for many targets at the same time, its iterations interleaved in
+    an arbitrary way ([sched]: which target makes the next step; Diff/Sched.v).  With a [reasons] slice per target,
+    as in the code that exists, the reason built for a target under ANY schedule is the reason diffEnv gives for
+    that target alone -- and hence (reason_names_exactly_differing_keys) names exactly the parts of ITS environment
+    that differ, whatever its siblings are -- and it is built as soon as the schedule has given the target its
+    [steps_needed] = 10 steps. *)
+Theorem reason_independent_of_concurrent_targets :
+  forall route_size (envs : list (value * value)) (sched : schedule) i old new stamp s r,
+  nth_error envs i = Some (VDict old, VDict new) ->
+  (exists d, diff_depth route_size depth1000 (VDict old) (VDict new) = Ok (Some d)) ->
+  diff_env stamp route_size (VDict old) (VDict new) = Ok (false, r) ->
+  nth_error (run_private (map (fun e => env_has route_size (fst e) (snd e)) envs) sched) i = Some s ->
+  (forall r', ts_out s = Some r' -> r' = r) /\
+  (steps_needed <= count_occ Nat.eq_dec sched i -> ts_out s = Some r)%nat.
+Proof. exact sched_diff_env_lemma. Qed.
+Print Assumptions reason_independent_of_concurrent_targets.
+
+(** Why the correspondence harness checks sibling targets concurrently: the same loop over ONE backing array for all
+    targets (a package-level scratch slice whose capacity suffices, so that append never reallocates) is NOT
+    independent of the schedule.  Two targets, one with changed constants and one with changed names: after the
+    schedule 0,0,1,0,... the first is told "names changed", a part of its sibling's environment, although diffEnv
+    alone says "constant values changed".  (A statement about this hypothetical variant, not about /repo.) *)
+Theorem shared_reasons_buffer_depends_on_schedule :
+  exists (envs : list (value * value)) sched i old new s r,
+    nth_error envs i = Some (old, new) /\
+    diff_env StampDiffers rs2m old new = Ok (false, r) /\
+    nth_error (snd (run_shared (map (fun e => env_has rs2m (fst e) (snd e)) envs) sched)) i = Some s /\
+    exists r', ss_out s = Some r' /\ r' <> r /\
+    r = s_constant_values ++ s_changed /\ r' = s_names ++ s_changed.
+Proof. exact shared_refuted_lemma. Qed.
+Print Assumptions shared_reasons_buffer_depends_on_schedule.
+
 (** The hypotheses are satisfiable. *)
 Example ex_hypotheses :
   let a := VTuple [VInt 1; VInt 2; VInt 3] in
@@ -316,3 +349,12 @@ Proof.
     apply (r_diag _ _ _ _ 0 0 0 1 1); [|reflexivity..].
     apply r_origin.
 Qed.
+
+(** two targets checked at once, every interleaving of the first one's 10 steps with 3 of its sibling's: the
+    reason of the first is its own *)
+Example ex_sched :
+  let envs := [(ex_env s_constant_values 1, ex_env s_constant_values 2); (ex_env s_names 1, ex_env s_names 2)] in
+  let hs := map (fun e => env_has rs2m (fst e) (snd e)) envs in
+  map ts_out (run_private hs [0; 0; 1; 0; 1; 0; 0; 0; 1; 0; 0; 0; 0]%nat) =
+    [Some (s_constant_values ++ s_changed); None].
+Proof. vm_compute. reflexivity. Qed.
